@@ -3,6 +3,7 @@ import PC.Drv.Pure
 import PC.Drv.RevDeps
 import PC.Drv.Sup
 import PC.Drv.Output
+import PC.Drv.Env
 /-! `pcdriver <component>`: reads protocol lines on stdin, prints `model ||| verdict` per line. -/
 open PC.Drv
 
@@ -17,4 +18,5 @@ def main (args : List String) : IO UInt32 := do
   | ["revdeps"] => loop PC.Drv.RevDeps.step stdin stdout (); return 0
   | ["sup"] => loop PC.Drv.Sup.step stdin stdout {}; return 0
   | ["output"] => loop PC.Drv.Output.step stdin stdout (); return 0
+  | ["env"] => loop PC.Drv.Env.step stdin stdout (); return 0
   | _ => IO.eprintln "usage: pcdriver <component>"; return 2
